@@ -60,8 +60,9 @@ type addrMode struct {
 
 type addrLayout struct {
 	Top, Sub, GitDir, GitFileDir, Worktree, Bare, Outside string
-	EnvGraftFile                                          string // set when the caller's environment names a graft file
-	LinkDeep, LinkDeepReal, LinkTop, LinkGitDir           string // symbolic links: to a directory three levels down, to the top, to the git directory
+	EnvGraftFile                                          string    // set when the caller's environment names a graft file
+	MainHead, WorktreeHead                                model.Oid // what HEAD denotes in the main and in the linked work tree
+	LinkDeep, LinkDeepReal, LinkTop, LinkGitDir           string    // symbolic links: to a directory three levels down, to the top, to the git directory
 }
 
 var addrModes = []addrMode{
@@ -191,6 +192,23 @@ func rootExprVariant(ac *addrCase) (cases.ScanCase, []string) {
 	return sc, args
 }
 
+// headRootVariant: the case measured from the single ROOT argument HEAD, started in the given mode.
+func headRootVariant(ac *addrCase, l *addrLayout, mode string) cases.ScanCase {
+	sc := ac.SC
+	sc.ID = ac.ID + "-head-" + mode
+	sc.Roots = nil
+	for _, r := range ac.SC.Roots {
+		r.Walk = false
+		sc.Roots = append(sc.Roots, r)
+	}
+	h := l.MainHead
+	if strings.HasPrefix(mode, "linked-worktree") {
+		h = l.WorktreeHead
+	}
+	sc.Roots = append(sc.Roots, cases.RootSpec{O: h, Walk: true, IsRef: false, Name: "HEAD", Kind: "plain"})
+	return sc
+}
+
 // buildLayout materialises the case and every way of addressing it.
 func buildLayout(base string, ac *addrCase) (*addrLayout, *gitrepo.Repo, error) {
 	l := &addrLayout{Top: filepath.Join(base, "repo")}
@@ -237,6 +255,16 @@ func buildLayout(base string, ac *addrCase) (*addrLayout, *gitrepo.Repo, error) 
 		if r.O.K == "c" {
 			head = repo.Hex[r.O]
 		}
+		if r.Name == "refs/heads/main" {
+			l.MainHead = r.O // HEAD of the main work tree is "ref: refs/heads/main"
+		}
+	}
+	// the linked work tree is detached at the oldest commit: its HEAD differs from the main one's
+	l.WorktreeHead = model.Oid{K: "c", I: 1}
+	if hx := repo.Hex[l.WorktreeHead]; hx != "" && !ac.Shallow {
+		head = hx
+	} else {
+		l.WorktreeHead = model.Oid{}
 	}
 	cmd := exec.Command("/usr/bin/git", "worktree", "add", "--detach", "--no-checkout", l.Worktree, head)
 	cmd.Dir = l.Top
@@ -356,7 +384,7 @@ func logProblems(ar *addrRun, l *addrLayout, m addrMode) []string {
 
 func checkC13(c *Ctx) {
 	c.Ev.Level = "exploration"
-	c.Ev.Rule = "every generated repository flavour (plain; refs/replace of a commit by a bigger/smaller one, of a tree, of a blob; info/grafts adding, dropping, redirecting parents; a graft file named by the caller's GIT_GRAFT_FILE; shallow marker, also a stale empty one) x 17 ways of addressing it (top, subdirectory, inside .git, gitfile with an absolute and a relative path, GIT_DIR absolute / relative / '.' / naming a symbolic link / with GIT_WORK_TREE, git -C dir sizer, linked worktree and its subdirectory, bare copy, start directory entered through a symbolic link with GIT_DIR=../.., symbolic link to the top and a subdirectory below it; PWD is the logical path as a shell sets it): stdout must be byte-identical across addressing modes and equal the ObjGraph oracle on the objects as stored (ScanJudge; replace refs are ordinary references); the fake git's log must show --no-replace-objects, GIT_GRAFT_FILE=/dev/null and the real GIT_DIR on every invocation; shallow => refused; distinct = distinct (graph, flavour, mode)"
+	c.Ev.Rule = "every generated repository flavour (plain; refs/replace of a commit by a bigger/smaller one, of a tree, of a blob; info/grafts adding, dropping, redirecting parents; a graft file named by the caller's GIT_GRAFT_FILE; shallow marker, also a stale empty one) x 17 ways of addressing it (top, subdirectory, inside .git, gitfile with an absolute and a relative path, GIT_DIR absolute / relative / '.' / naming a symbolic link / with GIT_WORK_TREE, git -C dir sizer, linked worktree and its subdirectory, bare copy, start directory entered through a symbolic link with GIT_DIR=../.., symbolic link to the top and a subdirectory below it; PWD is the logical path as a shell sets it): stdout must be byte-identical across addressing modes and equal the ObjGraph oracle on the objects as stored (ScanJudge; replace refs are ordinary references); the fake git's log must show --no-replace-objects, GIT_GRAFT_FILE=/dev/null and the real GIT_DIR on every invocation; the single ROOT HEAD is measured per work tree (the linked one is detached at another commit) and judged by the oracle; shallow => refused; distinct = distinct (graph, flavour, mode)"
 	env := newScanEnv(c, true, false)
 	e := &c10Env{c: c, env: env, fake: buildFakeGit(c)}
 	rng := rand.New(rand.NewSource(c.Seed))
@@ -467,6 +495,32 @@ func checkC13(c *Ctx) {
 					}
 				}
 			}
+			// ROOT "HEAD": every work tree has its own HEAD (the linked one is detached at another commit); a run
+			// measures the HEAD of the work tree it was started in, judged by the oracle per work tree
+			if !ac.Shallow && l.WorktreeHead.K != "" && l.MainHead.K != "" {
+				for i, m := range addrModes {
+					if m.Name != "top" && m.Name != "linked-worktree" && m.Name != "linked-worktree-subdir" && m.Name != "GIT_DIR-absolute" {
+						continue
+					}
+					ar := e.runAddr(l, m, base, nil, 0, "HEAD")
+					c.CountEval(1)
+					sc3 := headRootVariant(&ac, l, m.Name)
+					c.Distinct(sc3.ID)
+					_ = i
+					if ar.Exit != 0 {
+						c.AddViolation(Violation{Predicate: "no_report", Spec: "CliRun (addressing, ROOT HEAD) / ObjGraph oracle", Kind: "addr",
+							Input:    map[string]interface{}{"case": ac, "mode": m.Name, "headroot": true},
+							Observed: map[string]interface{}{"exit": ar.Exit, "stderr": tail(ar.Stderr, 4)}})
+						continue
+					}
+					var mm map[string]json.RawMessage
+					if json.Unmarshal([]byte(ar.Stdout), &mm) == nil {
+						o := &observed{Case: sc3, G: repo.G, Rev: repo.Rev, Hex: repo.Hex, JSON: mm, HasGit: false}
+						s.addObserved("addr", o)
+						s.src[sc3.ID] = map[string]interface{}{"case": ac, "mode": m.Name, "headroot": true}
+					}
+				}
+			}
 			// the oracle on the objects as stored (one judged run per case)
 			if !ac.Shallow && runs[0].Exit == 0 {
 				var m map[string]json.RawMessage
@@ -504,6 +558,7 @@ func replayAddr(c *Ctx, raw json.RawMessage) bool {
 			Case     addrCase `json:"case"`
 			Mode     string   `json:"mode"`
 			RootExpr bool     `json:"rootexpr"`
+			HeadRoot bool     `json:"headroot"`
 		} `json:"input"`
 		Predicate string `json:"predicate"`
 	}
@@ -524,6 +579,25 @@ func replayAddr(c *Ctx, raw json.RawMessage) bool {
 	jsc := ac.SC
 	if rp.Input.RootExpr {
 		jsc, extra = rootExprVariant(&ac)
+	}
+	if rp.Input.HeadRoot {
+		for _, m := range addrModes {
+			if m.Name != rp.Input.Mode {
+				continue
+			}
+			ar := e.runAddr(l, m, base, nil, 0, "HEAD")
+			if ar.Exit != 0 {
+				return true
+			}
+			sc3 := headRootVariant(&ac, l, m.Name)
+			var mm map[string]json.RawMessage
+			json.Unmarshal([]byte(ar.Stdout), &mm)
+			o := &observed{Case: sc3, G: repo.G, Rev: repo.Rev, Hex: repo.Hex, JSON: mm}
+			jc, _ := o.judgeCase(maxTLCInt, maxTLCInt)
+			v := runJudge(sub, []map[string]interface{}{jc})[sc3.ID]
+			return v.Crashed || len(v.Wrong) > 0 || !v.Refs
+		}
+		return false
 	}
 	top := e.runAddr(l, addrModes[0], base, nil, 0, extra...)
 	for i, m := range addrModes {
